@@ -41,7 +41,8 @@ def floors(tier):
           'ev:std_clipped': 30 * k,
           'ev:normalize_round_trip': 200 * k,
           'ev:int_leaves_untouched': 50 * k,
-          'ev:constant_column_std_min': 20 * k}
+          'ev:constant_column_std_min': 20 * k,
+          'histories_with_integer_leaf': 20 * k}
 
 
 def make_structure(rng):
@@ -128,6 +129,17 @@ def run(job, mon):
           s0 * rng.uniform(1.0, 1.25))
     two_axes = rng.random() < 0.4
 
+    # sometimes an integer-valued leaf (uint8 pixels / int32 counters): the
+    # statistics of integer data are still the population statistics
+    if isinstance(shapes, dict) and rng.random() < 0.3:
+      ishape = (int(rng.integers(1, 4)),)
+      shapes = dict(shapes, zz_int=ishape)
+      idt = np.uint8 if rng.random() < 0.5 else np.int32
+      data = dict(data, zz_int=rng.integers(
+          0, 256, (n,) + ishape).astype(idt))
+      if isinstance(cidx, dict):
+        cidx = dict(cidx, zz_int=None)
+      mon.count('histories_with_integer_leaf')
     template = tmap(lambda s: jp.zeros(s), shapes)
     wit = lambda **kw: dict(case=c, seed=job['seed'], structure=sdesc,
                             shapes=shapes, n=n, cuts=cuts, weighted=weighted,
@@ -262,6 +274,10 @@ def run(job, mon):
     okn = True
     for p, z, bk, m_, s_ in zip(leaves(probe), leaves(nz), leaves(back),
                                 leaves(st.mean), leaves(st.std)):
+      if not np.issubdtype(np.asarray(p).dtype, np.inexact):
+        # non-float leaves pass through normalize / denormalize untouched
+        okn = okn and z is p and bk is p
+        continue
       p, z, bk, m_, s_ = map(np.asarray, (p, z, bk, m_, s_))
       okn = okn and (np.abs(bk - p) <= 1e-9 * (np.abs(p) + np.abs(m_) + s_)
                      ).all()
@@ -275,7 +291,8 @@ def run(job, mon):
       okc = all((np.abs(np.asarray(z)) <= mav).all() and
                 (np.abs(np.asarray(z) - np.clip(np.asarray(u), -mav, mav))
                  <= 1e-12).all()
-                for z, u in zip(leaves(nzc), leaves(nz)))
+                for z, u in zip(leaves(nzc), leaves(nz))
+                if np.issubdtype(np.asarray(z).dtype, np.inexact))
       mon.check('normalize_max_abs_value', okc,
                 lambda: wit(max_abs_value=mav, got=nzc))
     if c % 3 == 0:
